@@ -6,6 +6,7 @@ use crate::mp4box::*;
 use crate::*;
 use std::convert::TryFrom;
 use std::convert::TryInto;
+use std::io::{Cursor, Write};
 
 // ---------------------------------------------------------------- four-character codes (C16)
 /// independent table of the registered codes (from their ASCII spelling)
@@ -338,3 +339,63 @@ fn item_to_u32_binary_all() {
         assert!(got.is_none());
     }
 }
+
+// ---------------------------------------------------------------- decode(encode(x)) == x on the compiled code (C04, C05)
+// Every field of the value is symbolic (subject to the box's wire predicate: 24-bit flags); the only loops are byte copies of constant length, closed by the unwinding
+// assertions: complete proofs. A failure comes with a concrete value that `cargo kani playback` replays on the real code.
+/// fixed-capacity sink: no allocation on the encode side
+pub struct ArrW<const N: usize> { pub d: [u8; N], pub p: usize }
+impl<const N: usize> Write for ArrW<N> {
+    fn write(&mut self, buf: &[u8]) -> std::io::Result<usize> {
+        let n = buf.len();
+        if self.p + n > N { return Err(std::io::Error::from(std::io::ErrorKind::WriteZero)); }
+        let mut i = 0;
+        while i < n { self.d[self.p + i] = buf[i]; i += 1; }
+        self.p += n;
+        Ok(n)
+    }
+    fn flush(&mut self) -> std::io::Result<()> { Ok(()) }
+}
+
+#[kani::proof]
+#[kani::unwind(10)]
+fn roundtrip_smhd() {
+    let b = smhd::SmhdBox { version: kani::any(), flags: kani::any::<u32>() & 0xff_ffff, balance: FixedPointI8::new_raw(kani::any()) };
+    let mut w = ArrW::<16> { d: [0; 16], p: 0 };
+    let n = b.write_box(&mut w);
+    assert!(n.is_ok() && w.p == 16);
+    let mut rd = Cursor::new(&w.d[..]);
+    let h = BoxHeader::read(&mut rd).unwrap();
+    assert!(h.name == BoxType::SmhdBox && h.size == 16);
+    let r = smhd::SmhdBox::read_box(&mut rd, h.size);
+    match &r { Ok(x) => assert!(*x == b), Err(_) => assert!(false) }
+    std::mem::forget(r); std::mem::forget(n);
+}
+
+fn f24() -> u32 { kani::any::<u32>() & 0xff_ffff }
+
+macro_rules! roundtrip {
+    ($name:ident, $ty:path, $bt:path, $cap:expr, $mk:expr) => {
+        #[kani::proof]
+        #[kani::unwind(18)]
+        fn $name() {
+            let b: $ty = $mk;
+            let mut w = ArrW::<$cap> { d: [0; $cap], p: 0 };
+            let n = b.write_box(&mut w);
+            match &n { Ok(k) => assert!(*k as usize == w.p && *k == b.box_size()), Err(_) => assert!(false) }
+            let len = w.p;
+            let mut rd = Cursor::new(&w.d[..len]);
+            let h = BoxHeader::read(&mut rd).unwrap();
+            assert!(h.name == $bt && h.size == len as u64);
+            let r = <$ty>::read_box(&mut rd, h.size);
+            match &r { Ok(x) => { assert!(*x == b); assert!(rd.position() == len as u64); } Err(_) => assert!(false) }
+            std::mem::forget(r); std::mem::forget(n);
+        }
+    };
+}
+
+roundtrip!(roundtrip_mfhd, mfhd::MfhdBox, BoxType::MfhdBox, 16, mfhd::MfhdBox { version: kani::any(), flags: f24(), sequence_number: kani::any() });
+roundtrip!(roundtrip_trex, trex::TrexBox, BoxType::TrexBox, 32, trex::TrexBox { version: kani::any(), flags: f24(), track_id: kani::any(), default_sample_description_index: kani::any(),
+    default_sample_duration: kani::any(), default_sample_size: kani::any(), default_sample_flags: kani::any() });
+roundtrip!(roundtrip_vmhd, vmhd::VmhdBox, BoxType::VmhdBox, 20, vmhd::VmhdBox { version: kani::any(), flags: f24(), graphics_mode: kani::any(),
+    op_color: vmhd::RgbColor { red: kani::any(), green: kani::any(), blue: kani::any() } });
